@@ -328,6 +328,23 @@ pub fn gen_c07(out: &mut impl Write, seed: u64, thorough: bool) {
                 }
             }
         }
+        // whatever a back end agrees to wrap (own randomness, any parameter block it accepts) must unwrap on every back end
+        // of the version: parameters outside the siblings' common domain included (parallelism 2, memory not a multiple of 1 MiB / 1 KiB)
+        for k in kinds() {
+            let key = some_key(be, k, &mut r, &mut cache);
+            let mut plist: Vec<Vec<u8>> = vec![small_params(be, &mut r)];
+            if be.version() % 2 == 0 {
+                for (mem, t, p) in [(64u64 * 1024, 1u32, 2u32), (1000 * 1024, 1, 1), (8 * 1024, 2, 1), (16 * 1024 + 512, 1, 1), (32 * 1024, 1, 4)] {
+                    let mut v = mem.to_be_bytes().to_vec(); v.extend(t.to_be_bytes()); v.extend(p.to_be_bytes());
+                    plist.push(v);
+                }
+            } else {
+                plist.push(2u32.to_be_bytes().to_vec());
+            }
+            for params in plist {
+                writeln!(out, "o.pw.cross {} {} {} {} {}", be.name(), k.name(), hex(b"pw"), hex(pw_template(be, k, &params, 32).as_bytes()), hex(&key)).unwrap();
+            }
+        }
         for i in 0..(if be == Be::V1 { 2 } else { reps }) {
             let key = r.bytes(32);
             let rnd = if be == Be::V1 { r.bytes(512) } else if be.version() == 3 { let mut x = r.bytes(48); x[0] &= 0x7f; x } else { r.bytes(32) };
@@ -342,6 +359,36 @@ pub fn gen_c07(out: &mut impl Write, seed: u64, thorough: bool) {
             let _ = i;
         }
     }
+}
+
+fn der_len(n: usize) -> Vec<u8> {
+    if n < 0x80 { vec![n as u8] } else if n < 0x100 { vec![0x81, n as u8] } else { vec![0x82, (n >> 8) as u8, n as u8] }
+}
+fn der_tlv(tag: u8, c: &[u8]) -> Vec<u8> {
+    let mut v = vec![tag];
+    v.extend(der_len(c.len()));
+    v.extend(c);
+    v
+}
+fn der_uint(be: &[u8]) -> Vec<u8> {
+    let mut b: Vec<u8> = be.iter().copied().skip_while(|x| *x == 0).collect();
+    if b.is_empty() { b.push(0); }
+    if b[0] & 0x80 != 0 { b.insert(0, 0); }
+    der_tlv(2, &b)
+}
+/// SubjectPublicKeyInfo for an RSA key with an (odd, random) modulus of exactly `bits` bits and e = 65537
+pub fn rsa_spki_with_bits(r: &mut Rng, bits: usize) -> Vec<u8> {
+    let nbytes = bits.div_ceil(8);
+    let mut n = r.bytes(nbytes);
+    let top = (bits - 1) % 8;
+    n[0] &= ((1u16 << (top + 1)) - 1) as u8;
+    n[0] |= 1 << top;
+    *n.last_mut().unwrap() |= 1;
+    let key = der_tlv(0x30, &[der_uint(&n), der_uint(&[1, 0, 1])].concat());
+    let alg: [u8; 15] = [0x30, 0x0d, 0x06, 0x09, 0x2a, 0x86, 0x48, 0x86, 0xf7, 0x0d, 0x01, 0x01, 0x01, 0x05, 0x00];
+    let mut bitstr = vec![0u8];
+    bitstr.extend(key);
+    der_tlv(0x30, &[alg.to_vec(), der_tlv(3, &bitstr)].concat())
 }
 
 fn p384_uncompressed(c: &[u8]) -> Option<Vec<u8>> {
@@ -475,6 +522,13 @@ pub fn gen_c08(out: &mut impl Write, seed: u64, thorough: bool) {
                     writeln!(out, "key.dec v1 {} {}", k.name(), hex(raw)).unwrap();
                     writeln!(out, "o.key v1 {} {}", k.name(), hex(raw)).unwrap();
                 }
+                // wrong-size moduli: every bit length around 2048 and 4096, and some others
+                for bits in (2033usize..=2056).chain(4089..=4104).chain([512, 1024, 2040, 3072, 4095, 4097, 8192]) {
+                    let spki = rsa_spki_with_bits(&mut r, bits);
+                    writeln!(out, "key.dec v1 public {}", hex(&spki)).unwrap();
+                    writeln!(out, "key.dec v1 pkepublic {}", hex(&spki)).unwrap();
+                    if bits == 2048 { writeln!(out, "o.key v1 public {}", hex(&spki)).unwrap(); }
+                }
                 let der = with_v!(be, V => key_of::<V, Secret>(&spem).map(|k| k.expose_key().as_raw_bytes().to_vec()).unwrap_or_default());
                 for cut in [1usize, 2, 10, 100] {
                     if der.len() > cut { writeln!(out, "key.dec v1 secret {}", hex(&der[..der.len() - cut])).unwrap(); }
@@ -535,6 +589,13 @@ pub fn gen_c13(out: &mut impl Write, seed: u64, thorough: bool) {
             let j = (i * 7 + 1) % ids.len();
             writeln!(out, "o.id.ord {} {} {}", be.name(), hex(ids[i].as_bytes()), hex(ids[j].as_bytes())).unwrap();
             writeln!(out, "txt.rt {} id local {}", be.name(), hex(ids[i].as_bytes())).unwrap();
+        }
+        // near misses of a valid id string: one extra alphabet character appended (every alphabet character), one dropped
+        for id in ids.iter().take(3) {
+            for c in b"ABCDEFGHIJKLMNOPQRSTUVWXYZabcdefghijklmnopqrstuvwxyz0123456789-_=." {
+                writeln!(out, "txt.rt {} id local {}", be.name(), hex(format!("{id}{}", *c as char).as_bytes())).unwrap();
+            }
+            writeln!(out, "txt.rt {} id local {}", be.name(), hex(id[..id.len() - 1].as_bytes())).unwrap();
         }
         // wrong decoded lengths
         for len in [0usize, 1, 31, 32, 34, 35, 64, 66] {
